@@ -14,7 +14,7 @@ def gen_exec(r, tier):
 class C19(Prop):
     id = "C19"
     lean_modules = ["Fan2go.Props.C19"]
-    fact_modules = ["Fan2go.Props.Facts"]
+    fact_modules = ["Fan2go.Props.Facts", "Fan2go.Props.Trans3Perm", "Fan2go.Props.Trans3Exec", "Fan2go.Props.Trans3CmdFan"]
     rule = ("exec: the real SafeCmdExecution (and CmdSensor.GetValue / CmdFan.GetPwm/GetRpm/SetPwm on top) on root-owned "
             "scripts for every failure mode: exit 0 / non-zero with and without output, killed by a signal, not executable, bad "
             "executable format, interpreter vanished after the check, sleeping beyond the deadline (shell and exec'ed), "
@@ -39,6 +39,14 @@ class C19(Prop):
                 if op.startswith("ex.statrace"):
                     if g.strip() != "panics=0":
                         out.append(viol(f"a call panicked while the executable was being swapped for a symlink loop: {op} -> {g}", [cops[0], op], [cgo[0], g]))
+                    continue
+                if op.startswith("ex.busyhold"):
+                    r = kv(g)
+                    if r.get("run") == "blocked" or r.get("late") == "1" or "panic" in g:
+                        out.append(viol(f"an executable that was busy (held open for writing) for longer than the timeout: the call did not "
+                                        f"come back with an error within its timeout + margin: {op} -> {g}", [cops[0], op], [cgo[0], g]))
+                    elif not str(r.get("after", "")).startswith("ok"):
+                        out.append(viol(f"the command did not work again after the writer had gone: {op} -> {g}", [cops[0], op], [cgo[0], g]))
                     continue
                 if op.startswith("ex.repeat"):
                     r = kv(g)
